@@ -149,6 +149,27 @@ def route_bar_copy(ctx, shape, wmax):
     return [bar.sequence], [cp.sequence], True
 
 
+def route_bar_copy_after_abs_op(ctx, shape, wmax):
+    # the bar's sequence was last changed through its absolute view; the copy must carry that change
+    b, s = mk_orig(ctx, shape, wmax, "rel")
+    bar = Bar(s, 4, 4, KEYS[3])
+    bar.sequence.cutoff(3, 2)
+    cp = bar.copy()
+    return [bar.sequence], [cp.sequence], True
+
+
+def route_track_copy_after_abs_op(ctx, shape, wmax):
+    bar1, bar2 = _two_bars(ctx, shape, wmax)
+    bar1.sequence.quantise_note_lengths([4])
+    bar2.sequence.add_absolute_message(on(0, 67, 9, time=50))
+    bar2.sequence.add_absolute_message(off(0, 67, time=60))
+    tr = Track([bar1, bar2])
+    for b_ in tr.bars:
+        b_.sequence.cutoff(3, 2)
+    cp = tr.copy()
+    return [x.sequence for x in tr.bars], [x.sequence for x in cp.bars], True
+
+
 def _two_bars(ctx, shape, wmax):
     b, s = mk_orig(ctx, shape, wmax, "rel")
     bar1 = Bar(s, 4, 4, None)
@@ -186,7 +207,8 @@ def route_split_bars(requant):
 
 
 ROUTES = {"seq_copy_rel": route_seq_copy("rel"), "seq_copy_abs": route_seq_copy("abs"), "seq_copy_both": route_seq_copy("both"),
-          "bar_copy": route_bar_copy, "track_copy": route_track_copy, "composition_copy": route_comp_copy,
+          "bar_copy": route_bar_copy, "bar_copy_after_abs_op": route_bar_copy_after_abs_op,
+          "track_copy_after_abs_op": route_track_copy_after_abs_op, "track_copy": route_track_copy, "composition_copy": route_comp_copy,
           "split": route_split, "split_bars_requant": route_split_bars(True), "split_bars_plain": route_split_bars(False)}
 
 
